@@ -53,7 +53,10 @@ def build(c):
     nv = c.get("nvdim", 3)
     arr = np.array([fl(x) for x in c["vals"]], dtype=float).reshape(*sh, nv)
     valid = np.array(c["valid"], dtype=bool).reshape(*sh) if c.get("valid") is not None else True
-    return df.Field(mesh, nvdim=nv, value=arr, valid=valid)
+    vm = None
+    if nv == 3 and nd == 2 and dims in (None, ["x", "y"]):
+        vm = {"x": "x", "y": "y", "z": None}      # lets Field.rotate90 turn the sample in the x-y plane
+    return df.Field(mesh, nvdim=nv, value=arr, valid=valid, vdim_mapping=vm)
 
 
 def fracs(a):
@@ -96,14 +99,66 @@ def smooth2d(rng, sh, flavour=None):
     return arr
 
 
+# lengths within numpy's default closeness tolerance of 1 (|x-1| <= 1e-8 + 1e-5) without being 1
+NEAR = [1 - 1e-9, 1 + 1e-9, 1 - 1e-7, 1 + 1e-7, 1 - 1e-6, 1 + 1e-6, 1 - 4e-6, 1 + 4e-6, 1 + 8e-6, 1 - 1e-5,
+        1 + 1e-5, 1 - 2.0 ** -18, 1 + 2.0 ** -18, 1 - 2.0 ** -20]
+UNIT_POOL = [(0.6, 0.8, 0.0), (0.0, 0.6, 0.8), (0.8, 0.0, -0.6), (1.0, 0.0, 0.0), (0.0, -1.0, 0.0), (0.0, 0.0, 1.0),
+             (1 / 3, 2 / 3, 2 / 3), (2 / 7, 3 / 7, 6 / 7), (4 / 9, -4 / 9, 7 / 9)]
+
+
+def unitize(a):
+    a = np.asarray(a, dtype=float)
+    nrm = np.linalg.norm(a, axis=-1, keepdims=True)
+    return np.divide(a, nrm, out=np.zeros_like(a), where=nrm != 0)
+
+
+def nearunit_apply(rng, unit_arr):
+    """a (…,3) array of unit vectors -> lengths 1 +- {1e-9 .. 1e-5} uniformly / per cell, or float32 rounding"""
+    mode = rng.choice(["uniform", "uniform", "percell", "percell", "f32", "f32-uniform"])
+    a = np.array(unit_arr, dtype=float)
+    if mode.startswith("f32"):
+        a = a.astype(np.float32).astype(float)
+    if mode in ("uniform", "f32-uniform"):
+        a = a * rng.choice(NEAR)
+    elif mode == "percell":
+        fac = np.array([rng.choice(NEAR) for _ in range(a.size // 3)]).reshape(*a.shape[:-1], 1)
+        a = a * fac
+    return a, mode
+
+
+def nearunit_line_vectors(rng, n, anti=True):
+    """unit vectors with exactly parallel / nearly parallel / antiparallel / generic neighbours"""
+    u = np.array(rng.choice(UNIT_POOL))
+    out = []
+    for _ in range(n):
+        r = rng.random()
+        if r < 0.4:
+            v = u
+        elif r < 0.5:
+            v = -u if anti else u
+        elif r < 0.85:
+            w = np.array([rng.uniform(-1, 1) for _ in range(3)])
+            v = unitize(u + rng.choice([1e-9, 1e-7, 1e-6, 1e-4, 1e-2]) * w)
+        else:
+            v = np.array(rng.choice(UNIT_POOL))
+        out.append(np.asarray(v, dtype=float))
+        if rng.random() < 0.3:
+            u = out[-1]
+    return np.array(out)
+
+
 def field_case_2d(rng, kind, big=False):
     lo, hi = (1, 5) if not big else (3, 9)
     sh = [rng.randint(lo, hi), rng.randint(lo, hi)]
     cell = [dyadic_cell(rng), dyadic_cell(rng)]
     p1 = [F(rng.randint(-16, 16), 2) for _ in range(2)]
-    tex = rng.choice(["random", "random", "smooth", "smooth", "axis", "uniform"])
+    tex = rng.choice(["random", "random", "smooth", "smooth", "axis", "uniform", "nearunit", "nearunit"])
     if tex == "random":
         arr = np.array([rand_vec(rng) for _ in range(sh[0] * sh[1])]).reshape(*sh, 3)
+    elif tex == "nearunit":
+        base = unitize(smooth2d(rng, sh)) if rng.random() < 0.6 else \
+            nearunit_line_vectors(rng, sh[0] * sh[1], anti=False).reshape(*sh, 3)
+        arr, _ = nearunit_apply(rng, base)
     elif tex == "smooth":
         arr = smooth2d(rng, sh) * rng.choice([1.0, 1.0, 8e5, 0.25])
     elif tex == "axis":
@@ -170,6 +225,8 @@ def generate(rng, tier):
         cases.append(demag_case(rng, k))
     for k in range(6 if q else 30):
         cases.append(demagseq_case(rng, k))
+    for k in range(24 if q else 150):
+        cases.append(quarter_case(rng))
     for k in range(36 if q else 150):
         cases.append(refuse_case(rng, k))
     rng.shuffle(cases)      # balances the cost of the Coq shards
@@ -185,9 +242,12 @@ def angle_case(rng):
     cell = [dyadic_cell(rng) for _ in range(nd)]
     p1 = [F(rng.randint(-16, 16), 2) for _ in range(nd)]
     n = math.prod(sh)
-    tex = rng.choice(["random", "near", "axis"])
+    tex = rng.choice(["random", "near", "axis", "nearunit", "nearunit"])
     if tex == "random":
         arr = [rand_vec(rng) for _ in range(n)]
+    elif tex == "nearunit":
+        arr, _ = nearunit_apply(rng, nearunit_line_vectors(rng, n))
+        arr = arr.tolist()
     elif tex == "axis":
         arr = []
         for _ in range(n):
@@ -274,10 +334,33 @@ def meta_case(rng):
     c["rot"] = quat_rotation(rng) if rng.random() < 0.7 else signed_perm_rotation(rng)
     c["lengths"] = [g.qs(F(rng.choice([1, 2, 3, 5, 1000, 123457]), rng.choice([1, 2, 7, 1000])))
                     for _ in range(sh[0] * sh[1])]
+    if rng.random() < 0.45:
+        # exactly normalised base field; the rescalings stay within 1e-5 of length 1
+        base = unitize(np.array([fl(x) for x in c["vals"]]).reshape(*sh, 3))
+        base[np.linalg.norm(base, axis=-1) == 0] = (0.0, 0.6, 0.8)
+        c["vals"] = [g.qs(x) for x in base.reshape(-1).tolist()]
+        c["lengths"] = [g.qs(rng.choice(NEAR)) for _ in range(sh[0] * sh[1])]
+        c["tex"] = c["tex"] + "+nearunit"
+        c["f32"] = True
     c["mesh_scale"] = g.qs(rng.choice([F(1, 2), F(3), F(1, 10**9), F(7, 3), F(10**6), F(5, 10**9)]))
     c["mesh_shift"] = [g.qs(F(rng.randint(-50, 50), rng.choice([1, 3, 8]))) for _ in range(2)]
     c["quarter_k"] = rng.choice([1, 2, 3])
     return c
+
+
+def quarter_case(rng):
+    """rough random-direction textures (large neighbour angles, no exceptional triangles by construction of
+    generic directions), fully valid or masked; all four quarter turns of the sample"""
+    sh = [rng.randint(2, 7), rng.randint(2, 7)]
+    cell = [dyadic_cell(rng), dyadic_cell(rng)]
+    b = np.array([rng.uniform(-1, 1) for _ in range(3)])
+    amp = rng.choice([0.7, 1.5, 3.0])
+    arr = np.array([b + amp * np.array([rng.uniform(-1, 1) for _ in range(3)]) for _ in range(sh[0] * sh[1])])
+    arr = unitize(arr).reshape(*sh, 3) * rng.choice([1.0, 1.0, 8e5, 1 - 4e-6])
+    pm = rng.choice([0.0, 0.0, 0.2])
+    valid = [rng.random() >= pm for _ in range(sh[0] * sh[1])]
+    return dict(kind="quarter", sh=sh, cell=[g.qs(x) for x in cell], p1=[g.qs(F(rng.randint(-8, 8), 2)) for _ in range(2)],
+                vals=[g.qs(x) for x in arr.reshape(-1).tolist()], valid=valid, dims=None, bc="", tex=f"rough{amp}")
 
 
 def integer_case(rng):
@@ -318,7 +401,7 @@ def hedgehog_case(rng):
     cell = [F(rng.choice([1, 2, 3]), rng.choice([1, 2, 4])) for _ in range(3)]
     off = [rng.choice([0.13, -0.21, 0.37, 0.5, -0.42]) for _ in range(3)]
     return dict(kind="hedgehog", sh=sh, cell=[g.qs(x) for x in cell], off=[g.qs(x) for x in off],
-                length=g.qs(rng.choice([1.0, 8e5, 0.5])),
+                length=g.qs(rng.choice([1.0, 8e5, 0.5])), unit=rng.choice([None, None] + NEAR[4:10]),
                 shift=[g.qs(F(rng.randint(-20, 20), 2)) for _ in range(3)])
 
 
@@ -532,6 +615,12 @@ def run_charge(c, rec):
         return
     dV = F(c["cell"][0]) * F(c["cell"][1])
     q = d.array.reshape(-1)
+    if not (np.all(np.isfinite(q)) and math.isfinite(r)):
+        risky = c["method"] == "berg-luescher" and bl_table(f.orientation.array, sh)[1]
+        if not risky:
+            rec["oracle"].append("charge-not-finite")
+        rec.update(obs=dict(nonfinite=True, exceptional=bool(risky)), key=f'charge/{c["method"]}/nonfinite/{risky}')
+        return
     if c["absolute"] and r < 0:
         rec["oracle"].append("absolute-charge-negative")
     if c["tex"] == "uniform" and far(r, 0.0, 1e-12):
@@ -590,6 +679,19 @@ def run_angle(c, rec):
                 ref = math.degrees(ref)
             if abs(got - ref) > 1e-6 * (180 if deg else 1):
                 rec["oracle"].append("angle-differs-from-angle-between-unit-vectors")
+    # the angle between the exactly normalised vectors, from the raw input (independent of Field.orientation)
+    raw = f.array
+    RA, RB = raw[tuple(sl1)].reshape(-1, 3), raw[tuple(sl2)].reshape(-1, 3)
+    for a, b, got in zip(RA, RB, out.tolist()):
+        if np.linalg.norm(a) <= 1e-6 or np.linalg.norm(b) <= 1e-6:
+            continue      # zero / sub-threshold vectors: Field.orientation's business (C15)
+        ea, eb = [F(x) for x in a.tolist()], [F(x) for x in b.tolist()]
+        cr = vcross(ea, eb)
+        ref = math.atan2(math.sqrt(float(vdot(cr, cr))), float(vdot(ea, eb)))
+        if deg:
+            ref = math.degrees(ref)
+        if not abs(got - ref) <= 1e-6 * (180 if deg else 1):
+            rec["oracle"].append("angle-differs-from-angle-between-exactly-normalised-vectors")
     degf = F(180 / math.pi)
     coq_a = (f'CAngle {g.nl(sh)} {g.nat(ax)} {g.b(deg)} {g.q(degf)} {g.ql(fracs(o))} '
              f'{g.lst([g.pair(g.q(k), g.q(v)) for k, v in tab.items()])} {g.nl(list(r.array.shape[:-1]))} {g.ql(fracs(out))}')
@@ -884,6 +986,9 @@ def run_meta(c, rec):
     lens = np.array([fl(x) for x in c["lengths"]]).reshape(*sh, 1)
     compare("length-rescale", with_array(f, f.array * lens))
     compare("global-length-rescale", with_array(f, f.array * float(lens.reshape(-1)[0])))
+    if c.get("f32"):
+        # unit vectors stored in single precision: directions move by <= 6e-8, lengths by <= 6e-8
+        compare("float32-rounding", with_array(f, f.array.astype(np.float32).astype(float)))
     # reversal
     compare("reversal", with_array(f, -f.array), factor_density=-1.0, factor_charge=-1.0)
     # mesh rescaled and translated
@@ -903,7 +1008,9 @@ def run_meta(c, rec):
                 if far(d1.array.reshape(sh) * s * s, d0, RTOL * 4.0 / base_save):
                     rec["oracle"].append(f"mesh-rescale-density-not-1-over-s2-{m}")
     # quarter turn(s) of the sample (mesh and vectors together); only for default x,y naming
-    if c.get("dims") in (None, ["x", "y"]):
+    # (periodic meshes are left out: Mesh.rotate90 keeps the bc string, so after an odd turn the periodic
+    #  direction is a different physical direction - C12's subject, reported, not judged here)
+    if c.get("dims") in (None, ["x", "y"]) and not c.get("bc"):
         k = c["quarter_k"]
         st, fr = attempt(lambda: f.rotate90("x", "y", k=k))
         if st == "ok":
@@ -949,6 +1056,34 @@ def run_meta(c, rec):
                key=f'meta/{tuple(sh)}/{c["tex"]}/{all(c["valid"])}/{c.get("bc", "")}', nontrivial=True)
 
 
+def run_quarter(c, rec):
+    f = build(c)
+    sh = c["sh"]
+    base = both_charges(f)
+    _, risky, _ = bl_table(f.orientation.array, sh, np.array(c["valid"], dtype=bool).reshape(*sh))
+    dA = fl(c["cell"][0]) * fl(c["cell"][1])
+    obs = dict(base={m: repr(base[m][1]) for m in base}, risky=risky)
+    for k in (1, 2, 3, 4, -1):
+        st, fr = attempt(lambda: f.rotate90("x", "y", k=k))
+        if st != "ok":
+            rec["oracle"].append("rotate90-raised")
+            continue
+        other = both_charges(fr)
+        obs[f"k{k}"] = {m: repr(other[m][1]) for m in other}
+        for m in other:
+            if other[m][1] is None or base[m][1] is None:
+                rec["oracle"].append(f"quarter-turn-raised-{m}")
+                continue
+            if m == "berg-luescher" and risky:
+                continue
+            scale_q = float(np.abs(base[m][0]).sum() * dA) + 1.0
+            if far(other[m][1], base[m][1], RTOL * scale_q):
+                rec["oracle"].append(f"quarter-turn-changes-charge-{m}")
+            if far(np.rot90(base[m][0], k=k), other[m][0], RTOL * 4.0 / dA):
+                rec["oracle"].append(f"quarter-turn-changes-density-{m}")
+    rec.update(obs=obs, key=f'quarter/{tuple(sh)}/{c["tex"]}/{all(c["valid"])}', nontrivial=True)
+
+
 def run_integer(c, rec):
     f = build(c)
     if c["rot"]:
@@ -982,6 +1117,8 @@ def run_hedgehog(c, rec):
     mesh = df.Mesh(p1=p1, p2=p2, n=sh)
     centre = [(k / 2 + fl(o_)) * h for k, o_, h in zip(sh, c["off"], cell)]
     arr = hedgehog_arr(sh, cell, centre) * fl(c["length"])
+    if c.get("unit") is not None:       # unit hedgehog with all lengths within 1e-5 of 1
+        arr = unitize(arr) * float(c["unit"])
     obs = {}
     for sign, name in ((1.0, "out"), (-1.0, "in")):
         f = df.Field(mesh, nvdim=3, value=sign * arr)
